@@ -44,6 +44,7 @@ def tree_knobs(rng, k):
         hps = hps + [hps[0] if k % 2 else int(rng.integers(1, 25))] + ([hps[-1]] if k % 14 == 3 else [])
         inds = inds + alias
     return dict(
+        giant=(70000 if k % 8 == 5 else None),
         slab_inds=inds,
         halos_per_slab=hps,
         box=float(rng.choice([1.0, 500.0, 2000.0])),
